@@ -39,7 +39,7 @@ func init() {
 			"position fields the restorer leaves NoPos are outside the statement (it speaks of positions the restorer assigns) and are only counted",
 			"a comment-token inversion that gofmt itself produces when the comment is spliced textually before the token is attributed to go/printer, not to dst",
 		},
-		Required: map[string]int{"configs": 10},
+		Required: map[string]int{"configs": 11},
 	})
 }
 
@@ -676,6 +676,42 @@ func runC12(c *fw.Ctx) {
 					if n > 0 {
 						c.Nontrivial(id, fmt.Sprint(k))
 					}
+				}
+			})
+		}
+	}
+	// hand-made trees: declarations built from literals, with the Func flag of a declaration's
+	// signature left at its zero value (the keyword of a FuncDecl is printed and positioned whatever
+	// the flag says) and decorations at several points. Field lists say Opening / Closing: the
+	// restorer positions a parenthesis only where the tree says there is one.
+	if c.Shard == 0 {
+		for variant := 0; variant < 16; variant++ {
+			if variant&2 != 0 {
+				continue
+			}
+			id := fmt.Sprintf("hand-made:%d", variant)
+			c.Case(id, func() {
+				c.Observe("configs", "hand-made")
+				ft := &dst.FuncType{Func: variant&1 != 0, Params: &dst.FieldList{Opening: true, Closing: true}}
+				fd := &dst.FuncDecl{Name: dst.NewIdent("added"), Type: ft, Body: &dst.BlockStmt{List: []dst.Stmt{&dst.ReturnStmt{}}}}
+				if variant&4 != 0 {
+					fd.Recv = &dst.FieldList{Opening: true, Closing: true, List: []*dst.Field{{Names: []*dst.Ident{dst.NewIdent("r")}, Type: dst.NewIdent("T")}}}
+					fd.Recv.Decs.End.Append("/* note */")
+				}
+				if variant&8 != 0 {
+					fd.Decs.Start.Append("// doc")
+					fd.Decs.Name.Append("/* after name */")
+					fd.Name.Decs.Start.Append("/* before name */")
+				}
+				f := &dst.File{Name: dst.NewIdent("p"), Decls: []dst.Decl{
+					&dst.GenDecl{Tok: token.TYPE, Specs: []dst.Spec{&dst.TypeSpec{Name: dst.NewIdent("T"), Type: &dst.StructType{Fields: &dst.FieldList{Opening: true, Closing: true}}}}},
+					fd,
+					&dst.GenDecl{Tok: token.VAR, Specs: []dst.Spec{&dst.ValueSpec{Names: []*dst.Ident{dst.NewIdent("v")}, Values: []dst.Expr{&dst.FuncLit{Type: &dst.FuncType{Func: true, Params: &dst.FieldList{Opening: true, Closing: true}}, Body: &dst.BlockStmt{}}}}}},
+				}}
+				r := decorator.NewRestorer()
+				r.Fset = token.NewFileSet()
+				if n := c12Check(c, id, "hand-made", r, f, ""); n > 0 {
+					c.Nontrivial(id)
 				}
 			})
 		}
